@@ -26,7 +26,9 @@ Clause(o) ==
     IF ~(Len(q) >= 2 /\ q[1] = 60 /\ q[Len(q)] = 62) THEN "CorrelationQueryFinalised"
     ELSE LET body == SubSeq(q, 2, Len(q) - 1)
              rules == RuleTable(o)
-             map == RenMap(B)
+             \* a renaming conditioned on the log source applies to a correlation rule iff one of the rules it refers to -
+             \* directly or through a correlation rule - is of that log source (rule 1 is; rule 5 is a correlation rule over it)
+             map == IF B.pipe = "rename_win" /\ ~(\E i \in 1..Len(c.refs) : c.refs[i] \in {1, 5}) THEN <<>> ELSE RenMap(B)
              \* the search part may itself contain a whole correlation query (a referred correlation rule) with
              \* record separators of its own: it is taken off by its expected text, the rest is split
              S == Search(c, rules, o.alone, B, map)
